@@ -13,6 +13,7 @@ import (
 
 	"github.com/aml-org/amf-custom-validator/pkg"
 	"github.com/open-policy-agent/opa/ast"
+	"github.com/open-policy-agent/opa/rego"
 	"gopkg.in/yaml.v3"
 )
 
@@ -187,6 +188,19 @@ func renderSandbox(c sbCase) string {
 		set(map[string]any{"and": []any{simple, map[string]any{"rego": code}}})
 	case "or.operand":
 		set(map[string]any{"or": []any{map[string]any{"rego": code}, simple}})
+	case "and.secondRego", "or.secondRego", "not.or.secondRego":
+		// two embedded-Rego operands that differ in nothing but their code (same path, default message)
+		ops := []any{map[string]any{"rego": "$result = true"}, map[string]any{"rego": code}}
+		switch c.Pos {
+		case "and.secondRego":
+			set(map[string]any{"and": ops})
+		case "or.secondRego":
+			set(map[string]any{"or": ops})
+		default:
+			set(map[string]any{"not": map[string]any{"or": ops}})
+		}
+	case "constraint.regoAndModule":
+		set(map[string]any{"propertyConstraints": map[string]any{"ex.p": map[string]any{"rego": "$result = true", "regoModule": code}}})
 	case "under.nested":
 		set(map[string]any{"propertyConstraints": map[string]any{"ex.child": map[string]any{"nested": map[string]any{"rego": code}}}})
 	case "atLeast.validation", "atMost.validation":
@@ -239,10 +253,19 @@ func runSandbox(c sbCase) (o sbObs) {
 		}
 	}()
 	debug := len(c.ID)%2 == 1 || c.Debug
-	_, err := pkg.CompileProfile(prof, debug, nil)
-	if err == nil {
-		// every compilation of the same text must be judged, not only the first one, and whatever the debug flag
-		_, err = pkg.CompileProfile(prof, !debug, nil)
+	// every submission of the same text must be judged: again with the same flag right after a rejection (a caller
+	// retrying), and with the other flag; the profile counts as rejected only if every attempt is rejected
+	var err error
+	for _, d := range []bool{debug, debug, !debug, !debug} {
+		var h *rego.PreparedEvalQuery
+		h, err = pkg.CompileProfile(prof, d, nil)
+		if err == nil {
+			if h != nil {
+				// an accepted policy is also run: that is what a caller holding the handle would do
+				pkg.ValidateCompiled(h, sandboxData, d, nil)
+			}
+			break
+		}
 	}
 	if err != nil {
 		o.CompileErr = true
